@@ -8,9 +8,9 @@ import time
 VERUS = os.environ.get('VERUS', 'verus')
 
 
-def run_verus(path, extra=(), timeout=1800, rlimit=None, threads=None):
+def run_verus(path, extra=(), timeout=1800, rlimit=None, threads=None, multiple_errors=8):
     cmd = [VERUS, '--edition', '2024', '--triggers-mode', 'silent', '--output-json', '--time',
-           '--multiple-errors', '8', '--error-format=json', '--no-report-long-running']
+           '--multiple-errors', str(multiple_errors), '--error-format=json', '--no-report-long-running']
     if rlimit:
         cmd += ['--rlimit', str(rlimit)]
     if threads:
@@ -163,3 +163,22 @@ def classify(diags, meta):
             continue
         fatal.append(d)
     return failures, fatal
+
+
+def functions_with_diagnostics(diags, meta):
+    """Ids of all functions that have at least one error diagnostic located in them (used by the
+    reachability twin: an assertion failure or an exhausted resource limit both mean that
+    `false` could not be proved at the start of the body)."""
+    out = set()
+    for d in diags:
+        if d.get('level') != 'error':
+            continue
+        for s in d.get('spans', []):
+            fname = str(s.get('file_name', ''))
+            if not (fname.endswith('dev.rs') or 'minimq_verus' in fname):
+                continue
+            for ln in range(s['line_start'] - 1, min(s['line_end'], len(meta))):
+                m = meta[ln]
+                if m and 'fn' in m:
+                    out.add(m['fn'])
+    return out
